@@ -209,7 +209,8 @@ PROPS = {
         rule="TestC05: a real leader engine and a real follower engine (in-process, single-node clusters) wired like cmd/leader.go / cmd/follower.go with three Log servers (message-size limits 256 B, 4 KiB, 4 MiB; odd shards run "
              "the leader with the log cache on), real Snapshot/Metadata/KV services over loopback gRPC; the replication worker is built by the real factory and stepped by the harness (verif hook). Histories of 3-40 actions: leader put "
              "(values up to 3 KB) / delete / range delete / non-idempotent txn (if ctr==n then ctr:=n+1 else ctr:=0 + range delete), poll(one worker iteration against a drawn Log server, incl. snapshot recovery when the leader answers "
-             "USE_SNAPSHOT), leader snapshot + log compaction keeping 0-3 entries, worker restart, follower engine restart. Oracle after EVERY action: read follower leader index, full content, leader index again; if unchanged, content == "
+             "USE_SNAPSHOT), leader snapshot + log compaction keeping 0-3 entries, worker restart, follower engine restart, reads of another follower cluster through the shared log cache, bursts of 70-200 KiB writes that arrive in one message and are split into several proposals. "
+             "The same comparison runs after EVERY Update call of the follower's table state machine (applied-index listener: apply path paused, stale reads). Oracle after EVERY action: read follower leader index, full content, leader index again; if unchanged, content == "
              "leader model at that index; index never decreases; with the leader quiet at most 6 polls reach the leader's latest index and content. Non-trivial iff (a snapshot-based catch-up with non-idempotent txns both before and after it) "
              "or a worker/engine restart with un-replicated entries pending. TestC05Tables: create/delete of tables on the leader, reconcileTables, follower restarts; follower table set == leader table set after each reconciliation "
              "(non-trivial iff >=1 create and >=1 delete took effect). Distinct = sha256 of case JSON.",
